@@ -687,6 +687,19 @@ def hamiltonian_rule(run, repo, F, big):
             run.oblige('D8', ('exciton_chain', n), False)
             run.add(F('exciton_chain', 'D8', 'construction', f'n={n}: raises {e}'))
             continue
+        # the cores are polynomial in the parameters: a division by a parameter-dependent quantity (beta / sqrt(|beta|)) is 0/0 = NaN where it vanishes, although the
+        # product of the factors simplifies to the right polynomial
+        dens = set()
+        for c_ in t._attrs['cores']:
+            for e_ in np.asarray(c_, dtype=object).ravel():
+                if isinstance(e_, sp.Basic):
+                    for pw in e_.atoms(sp.Pow):
+                        if pw.exp.is_negative and (pw.base.free_symbols & {al, be}):
+                            dens.add(pw.base)
+        run.oblige('D8', ('exciton_chain', n, 'no division by parameters'), not dens)
+        if dens:
+            run.add(F('exciton_chain', 'D8', 'division by a parameter-dependent quantity', f'n={n}: a core entry divides by {sorted(map(str, dens))[:3]}: for parameter values where it vanishes '
+                      f'(an uncoupled chain, beta = 0) the entries are 0/0 = NaN although the formula is a polynomial in alpha and beta'))
         H = dense_op(t._attrs['cores'])
         want = sum(al * site(num, i, n) for i in range(n))
         for i in range(n):
